@@ -41,6 +41,8 @@ func runC10(e *Engine, r *Report) {
 	ruleDeferredErr(e, r, 8, "internal/tan", "internal/logdb", "internal/logdb/kv", "internal/logdb/kv/pebble", "internal/fileutil")
 	ruleSyncBeforeRename(e, r, 4, "internal/tan")
 	ruleTanFileInUse(e, r)
+	ruleDurableMkdir(e, r)
+	ruleTanManifestSync(e, r)
 }
 
 // runTanDirSync: after the CURRENT pointer is switched (rename inside
